@@ -51,6 +51,8 @@ def gen_case(rng, i):
     if sampling:
         c['size'] = dict(do_all=rng.choice([1, 2, 5]), do_all_exceptions=rng.choice([1, 2, 5]),
                          n_per_length=rng.choice([1, 2, 64]), max_sampled_attempts=rng.choice([1, 2, 3]))
+        if rng.random() < 0.25:
+            c['size']['use_sampling'] = rng.choice([False, True])     # spelled out; explicit do_all settings still decide what is sampled
         while len(set(c['xs'])) < 8:
             c['xs'] = c['xs'] + S.multiset(rng, n=10)
     elif not isinstance(c['size'], dict) or RC.effective_sampling(c):
